@@ -60,6 +60,8 @@ def verify_one(args):
         fi = repo.functions[key]
         out['sha'] = fi.sha
         out['path'] = fi.path
+        import ast as _ast
+        out['loops'] = sum(isinstance(n, (_ast.For, _ast.While)) for n in _ast.walk(fi.node))
         out['assumed'] = bool(api.CONTRACTS[key].assumed)
         e = Engine(repo, schema, api.CONTRACTS, api.SPECS, invs)
         e.hook_guards = list(hook_guards)
@@ -158,7 +160,7 @@ def make_baseline(results):
                            proved=(not r['unsupported'] and not r['error']
                                                  and all(o['verdict'] == 'unsat' for o in r['obligations'])),
                            discharged=sorted(o['name'] for o in r['obligations'] if o['verdict'] == 'unsat'),
-                           n=len(r['obligations']))
+                           n=len(r['obligations']), loops=r.get('loops'))
     return b
 
 
@@ -175,6 +177,20 @@ def classify(results, baseline):
         if r['unsupported']:
             out['demoted'].append(dict(key=r['key'], reason=r['unsupported'], was_proved=was_proved,
                                        changed=(b.get('sha') != r['sha'])))
+        elif b.get('loops') is not None and r.get('loops') is not None and b['loops'] != r['loops']:
+            # loop annotations are keyed by ordinal: with another number of loops they no longer describe this body.
+            # An undischarged obligation then says nothing about the property (undecided, not a violation).
+            out['demoted'].append(dict(key=r['key'], was_proved=was_proved, changed=True,
+                                       reason='the function has %d loops, its contract annotates %d: re-annotation needed'
+                                              % (r['loops'], b['loops'])))
+            for o in r['obligations']:
+                out['total'] += 1
+                if o['verdict'] == 'unsat':
+                    out['discharged'] += 1
+                else:
+                    out['undecided'].append(dict(key=r['key'], name=o['name'], verdict=o['verdict'], output=o['output'], smt=o['smt'],
+                                                 trace=o['trace'], changed=True))
+            continue
         for o in r['obligations']:
             out['total'] += 1
             if o['verdict'] == 'unsat':
